@@ -143,6 +143,12 @@ fn ident_source(n: &str) -> String {
 /// One wire case: `caller` in {ban, except, invex, speak, who, whois, oper, usermask}.
 pub fn case_wire(caller: &str, mask: &str, ident: &str) -> Vec<Finding> {
     let mut out = vec![];
+    // "a^": the identity registered under another nick and then changed to "a" - the text
+    // a mask is compared with is the user's *current* nick!user@host
+    let (ident, renamed) = match ident.strip_suffix('^') {
+        Some(i) => (i, true),
+        None => (ident, false),
+    };
     let src = ident_source(ident);
     let norm = normalize_mask(mask);
     let mut cfg = Cfg::default();
@@ -176,7 +182,12 @@ pub fn case_wire(caller: &str, mask: &str, ident: &str) -> Vec<Finding> {
         return out;
     }
     for (k, id) in IDENTS.iter().enumerate() {
-        m!(w.register(1 + k, id, &format!("u{}", id)));
+        if renamed && *id == ident {
+            m!(w.register(1 + k, &format!("old{}", id), &format!("u{}", id)));
+            m!(w.send(1 + k, &format!("NICK {}", id)));
+        } else {
+            m!(w.register(1 + k, id, &format!("u{}", id)));
+        }
     }
     let slot = 1 + IDENTS.iter().position(|x| *x == ident).unwrap();
     w.take_all();
@@ -343,6 +354,15 @@ fn part_wire(max: u32) -> PartResult {
                 }
                 cases.push((c, m.clone(), id));
             }
+            // the same comparisons after the identity changed its nick to "a"
+            if c == "who" || c == "whois" || c == "oper" || c == "speak" {
+                cases.push((c, m.clone(), "a^"));
+            }
+        }
+    }
+    for m in ["a!*@*", "a!~ua@*", "*!~ua@127.0.0.1", "olda!*@*", "old*!*@*", "?!~ua@*", "a@127.0.0.1"] {
+        for c in ["who", "ban", "speak", "oper", "invex"] {
+            cases.push((c, m.to_string(), "a^"));
         }
     }
     // masks with all three parts and partial forms (completion rules on the wire)
